@@ -197,52 +197,7 @@ def run(ck):
               "shutdown(): abort(CancelledError), await the task, absorb only CancelledError" if ok and ok2
               else "shutdown() swallows more than CancelledError or does not stop the simulation with a "
               "CancelledError", sd, sd.node)
-        run = prog.func('simulator:run')
-        gr = ck.cfg(run.fid, 'M1')
-        first = nodes_where(gr, lambda n: isinstance(n.ast, ast.Assign) and
-                            norm(n.ast.targets[0]) == 'all_tasks')
-        ok = len(first) == 1 and isinstance(first[0].ast.value, ast.List) and \
-            [norm(e) for e in first[0].ast.value.elts] == ['simtask']
-        ck.ob(R2, f"{run.fid} :: simulation task first", ok,
-              "all_tasks starts with the simulation task" if ok else
-              "the simulation task is not the first task whose error is collected", run,
-              first[0].ast if first else run.node)
-        coll = [n for n in gr.nodes if n.kind == 'for' and 'all_tasks' in norm(n.ast.iter)
-                and 'enumerate' in norm(n.ast.iter)]
-        ok = len(coll) == 1 and 'reversed' not in norm(coll[0].ast.iter) and 'sorted' not in norm(coll[0].ast.iter)
-        ck.ob(R2, f"{run.fid} :: collection order", ok,
-              "errors are collected in task order" if ok else "errors are not collected in task order",
-              run, coll[0].ast if coll else run.node)
-        keep = nodes_where(gr, lambda n: isinstance(n.ast, ast.Assign) and
-                           norm(n.ast.targets[0]) == 'run_error' and not is_const(n.ast.value, None))
-        ok = bool(keep) and all(gr.has_guard(k, 'run_error is None', True) for k in keep)
-        # the other idiom: every error is appended to a list in collection order and the FIRST item is
-        # raised after the loop
-        lst = None
-        if not keep and coll:
-            apps_ = nodes_where(gr, lambda n: any(call_name(c) == 'append' and len(c.args) == 1
-                                                  for c in node_calls(n)) and gr.dominates(coll[0], n))
-            if len(apps_) == 1:
-                lst = recv(node_calls(apps_[0], 'append')[0])
-                hn = [h for h in gr.nodes if h.kind == 'handler' and gr.pred[h.id] and gr.dominates(h, apps_[0])]
-                ok = bool(hn) and norm(node_calls(apps_[0], 'append')[0].args[0]) == (hn[-1].ast.name or '')
-        ck.ob(R2, f"{run.fid} :: first error kept", ok,
-              "run_error is assigned only while it is None" if ok else
-              "a later task error replaces the first one", run, keep[0].ast if keep else run.node)
-        fin = nodes_where(gr, lambda n: isinstance(n.ast, ast.Raise) and n.ast.exc is not None and
-                          norm(n.ast.exc) == 'run_error' and gr.has_guard(n, 'run_error is None', False),
-                          kinds=('stmt',))
-        inner_h = [n for n in gr.nodes if n.kind == 'handler' and gr.pred[n.id]
-                   and coll and gr.dominates(coll[0], n)]
-        types = sorted(t for h in inner_h for t in handler_types(h.ast))
-        if not fin and lst:
-            fin = nodes_where(gr, lambda n: isinstance(n.ast, ast.Raise) and n.ast.exc is not None and
-                              norm(n.ast.exc) == f'{lst}[0]' and gr.has_guard(n, lst, True), kinds=('stmt',))
-        ok = bool(fin) and types == ['CancelledError', 'Exception']
-        ck.ob(R2, f"{run.fid} :: result", ok,
-              "cancellations are absorbed, the first error is raised after the loop, else None" if ok
-              else "run() does not raise the collected error / does not absorb cancellation", run,
-              fin[0].ast if fin else run.node)
+        run_reports_first_error(ck, R2)
 
     with ck.section('R09.3'):
         # ------------------------------------------------------------------ R09.3
@@ -393,3 +348,56 @@ def run(ck):
                   "failures of asynchronous init/clean-up, restore and save are only logged" if not bad
                   else f"{fid} escalates a non-fatal failure ({norm1(bad[0])})", fi,
                   bad[0] if bad else fi.node)
+
+
+def run_reports_first_error(ck, R2):
+    """edzed.run(): the simulation task's error is collected first and a later task error never replaces
+    it (shared by C09 R09.2 and C10 R10.8: the 'instability' error is what run() raises)."""
+    prog = ck.prog
+    run = prog.func('simulator:run')
+    gr = ck.cfg(run.fid, 'M1')
+    first = nodes_where(gr, lambda n: isinstance(n.ast, ast.Assign) and
+                        norm(n.ast.targets[0]) == 'all_tasks')
+    ok = len(first) == 1 and isinstance(first[0].ast.value, ast.List) and \
+        [norm(e) for e in first[0].ast.value.elts] == ['simtask']
+    ck.ob(R2, f"{run.fid} :: simulation task first", ok,
+          "all_tasks starts with the simulation task" if ok else
+          "the simulation task is not the first task whose error is collected", run,
+          first[0].ast if first else run.node)
+    coll = [n for n in gr.nodes if n.kind == 'for' and 'all_tasks' in norm(n.ast.iter)
+            and 'enumerate' in norm(n.ast.iter)]
+    ok = len(coll) == 1 and 'reversed' not in norm(coll[0].ast.iter) and 'sorted' not in norm(coll[0].ast.iter)
+    ck.ob(R2, f"{run.fid} :: collection order", ok,
+          "errors are collected in task order" if ok else "errors are not collected in task order",
+          run, coll[0].ast if coll else run.node)
+    keep = nodes_where(gr, lambda n: isinstance(n.ast, ast.Assign) and
+                       norm(n.ast.targets[0]) == 'run_error' and not is_const(n.ast.value, None))
+    ok = bool(keep) and all(gr.has_guard(k, 'run_error is None', True) for k in keep)
+    # the other idiom: every error is appended to a list in collection order and the FIRST item is
+    # raised after the loop
+    lst = None
+    if not keep and coll:
+        apps_ = nodes_where(gr, lambda n: any(call_name(c) == 'append' and len(c.args) == 1
+                                              for c in node_calls(n)) and gr.dominates(coll[0], n))
+        if len(apps_) == 1:
+            lst = recv(node_calls(apps_[0], 'append')[0])
+            hn = [h for h in gr.nodes if h.kind == 'handler' and gr.pred[h.id] and gr.dominates(h, apps_[0])]
+            ok = bool(hn) and norm(node_calls(apps_[0], 'append')[0].args[0]) == (hn[-1].ast.name or '')
+    ck.ob(R2, f"{run.fid} :: first error kept", ok,
+          "run_error is assigned only while it is None" if ok else
+          "a later task error replaces the first one", run, keep[0].ast if keep else run.node)
+    fin = nodes_where(gr, lambda n: isinstance(n.ast, ast.Raise) and n.ast.exc is not None and
+                      norm(n.ast.exc) == 'run_error' and gr.has_guard(n, 'run_error is None', False),
+                      kinds=('stmt',))
+    inner_h = [n for n in gr.nodes if n.kind == 'handler' and gr.pred[n.id]
+               and coll and gr.dominates(coll[0], n)]
+    types = sorted(t for h in inner_h for t in handler_types(h.ast))
+    if not fin and lst:
+        fin = nodes_where(gr, lambda n: isinstance(n.ast, ast.Raise) and n.ast.exc is not None and
+                          norm(n.ast.exc) == f'{lst}[0]' and gr.has_guard(n, lst, True), kinds=('stmt',))
+    ok = bool(fin) and types == ['CancelledError', 'Exception']
+    ck.ob(R2, f"{run.fid} :: result", ok,
+          "cancellations are absorbed, the first error is raised after the loop, else None" if ok
+          else "run() does not raise the collected error / does not absorb cancellation", run,
+          fin[0].ast if fin else run.node)
+
